@@ -19,6 +19,10 @@ CLAIMED = {
    text="Signer.tla models MsgSigner (buffer, sign clears it) and MsgVerifier (buffer kept); TLC explores every op sequence up to 6 (quick) / 8 (thorough) ops over 3 chunk ids incl. the empty chunk and checks NoCarryOver; every sign/verify-completing behaviour is replayed on real objects with 4 chunk-size maps and several seeds (signature bytes compared with one-shot ed25519-dalek over exactly the chunks the spec says are covered); recorded runs (every message length 0..4096, random chunkings, >=32 messages per signer, verifier on valid triples and all single-bit flips of signature/key and message) are validated against Trace_Signer.tla, where the interpretation determines which chunk range each real signature covers.",
    note="RFC 8032 equality is decided by ed25519-dalek (trusted oracle, vector-checked at start), not by TLC; a panic in MsgVerifier counts as reject.",
    technique="TLA+ object spec + TLC; behaviours replayed into MsgSigner/MsgVerifier; recorded runs validated against Trace_Signer.tla"),
+ "C14": dict(level="model_checking", ref="6 C14",
+   text="Envelope.tla models the blob as byte cells and decrypt_seed's parsing arithmetic with symbolic key wrap and AEAD; TLC checks RoundTrip, TamperDetected, NoOtherPlaintext over wrapped lengths x plaintext lengths x provider kind x {every header bit and value, byte positions (boundaries in quick, every position in thorough), every truncation, extensions, provider faults on either call}; every decrypt transition is replayed on EnvelopeEncryption with harness KmsProviders; seeded random rounds (wrapped 16..1024, 1-2 tamper ops) are re-decided by TLC (Trace_Envelope.tla) together with byte-scan leak facts.",
+   note="AES-GCM and key wrapping are symbolic in the model; the harness providers are injective on wrapped bytes; leak detection is a raw byte scan for seed and DEK.",
+   technique="TLA+ byte-cell model + TLC; decrypt transitions replayed into EnvelopeEncryption; recorded rounds validated against Trace_Envelope.tla"),
 }
 PENDING_REASON = "check not built yet in this session (see DESIGN.md section 6 for the planned TLA+ treatment)"
 
